@@ -427,6 +427,10 @@ pub struct Contract {
     /// message uses (token-level programs only: the compiled families do not set it)
     #[serde(default)]
     pub lifetime: bool,
+    /// write `sv::attr` above `sv::msg` where the renderer would write it below and vice versa
+    /// (the order of a method's attributes is a declaration order too)
+    #[serde(default)]
+    pub flip_attr_order: bool,
 }
 
 #[derive(Clone, Debug, PartialEq, Eq, Hash, Serialize, Deserialize)]
